@@ -12,6 +12,10 @@
   scaled space under C15's spectral contract, and for generalised power cones only up to the
   cone's own accepted candidates (`interior_preserved_mixed`; the stepped point would need
   convexity of that cone).  f64 rounding stays with the harness oracle `traj.margin`.
+
+  Round 4 (last section): generalised power blocks at the stepped point itself (the open cone and
+  its dual are convex) and PSD blocks in original coordinates (congruence with the NT scaling):
+  `interior_preserved_all_cones`, `interior_preserved_all_nonsym`, `all_iterates_interior_genpow`.
 -/
 import ClarabelProofs.Lemmas.LoopPrefix
 import ClarabelProofs.Lemmas.LoopStep
@@ -22,6 +26,7 @@ import ClarabelProofs.Lemmas.SolverModelExample
 import ClarabelProofs.Lemmas.StepKInterior
 import ClarabelProofs.Lemmas.StepKInit
 import ClarabelProofs.Lemmas.StepKMixed
+import ClarabelProofs.Lemmas.StepKAllCones
 import ClarabelProofs.Lemmas.StepKAccept
 import ClarabelProofs.Lemmas.LoopSwitch
 import ClarabelProofs.Lemmas.StepKTotal
@@ -645,4 +650,149 @@ example : swSumm (solve (swCfg 3) 0 swOs)
 example : withBudget (swCfg 2) 3 = swCfg 3 := rfl
 
 end switchExample
+end Clarabel.C07
+
+/-! ## Round 4 (cone geometry): `interior_preserved` for generalised power and PSD blocks at full strength -/
+namespace Clarabel.C07
+open Clarabel Clarabel.StepK Clarabel.Loop Clarabel.Loop.Step
+
+/-- [R] `C07.interior_preserved`, **all seven cone kinds at full strength** (strengthens
+`interior_preserved_mixed`, which covered generalised power blocks only up to the cone's accepted
+candidates and PSD blocks only in the scaled space).  `τ, κ > 0`; every block `StepOkAll`: zero /
+nonnegative / second-order / exponential / power blocks interior with a direction of the right shape;
+**generalised power** blocks with positive exponents summing to one and `(z, s) ∈ int K* × int K`
+(`GenPowInterior`); **PSD** blocks under C15's spectral contract for the two LAPACK answers and
+C13's Nesterov–Todd contract `NtOk K z s` of the scaling in use (`W z = λ = W⁻ᵀ s`, `R·R⁻¹ = I`).
+Then the value `α` of `calc_step_length(Combined)` (`0 < f = max_step_fraction < 1`) lies in
+`[0, f·min(1, ατ, ακ)]` (`≤ f²` with a nonsymmetric cone), and for **every** `0 ≤ a ≤ α`:
+`τ + a·dτ > 0`, `κ + a·dκ > 0`, and after `add_step(a)` every block is interior (`InteriorAll`) —
+generalised power blocks at the stepped point itself (convexity of the open cone and its dual), PSD
+blocks with `mat(z + a·dz) ≻ 0`, `mat(s + a·ds) ≻ 0` **in original coordinates** (congruence
+`Rᵀ(Z + aΔZ)R = Λ + a·mat(WΔz)`). -/
+theorem interior_preserved_all_cones (maxValue : ℝ) (ls : LineSearch ℝ) (hs0 : 0 ≤ ls.step)
+    (hs1 : ls.step ≤ 1) (hmax : 0 < maxValue) (p : Pt ℝ) (hτ : 0 < p.τ) (hκ : 0 < p.κ)
+    (hok : ∀ b ∈ p.blks, b.StepOkAll) (f α : ℝ) (hf0 : 0 < f) (hf1 : f < 1)
+    (h : StepK.calcStepLength maxValue ls p true f = .ok α) :
+    0 ≤ α ∧ α ≤ f * alphaMax p.τ p.κ p.dτ p.dκ maxValue ∧
+      (p.blks.all Blk.symmetric = false → α ≤ f * f) ∧
+      ∀ a, 0 ≤ a → a ≤ α → 0 < addStepScalar p.τ p.dτ a ∧ 0 < addStepScalar p.κ p.dκ a ∧
+        ∀ b ∈ p.blks, (b.addStep a).InteriorAll :=
+  StepK.all_step maxValue ls hs0 hs1 hmax p hτ hκ hok f α hf0 hf1 h
+
+/-- [R] …read off for one **PSD** block of the iterate: `z + a·dz ≻ 0` and `s + a·ds ≻ 0` (as
+matrices `mat(·)` of the `svec` slices `add_step` writes), for every `0 ≤ a ≤ α`. -/
+theorem interior_preserved_psd_unscaled (maxValue : ℝ) (ls : LineSearch ℝ) (hs0 : 0 ≤ ls.step)
+    (hs1 : ls.step ≤ 1) (hmax : 0 < maxValue) (p : Pt ℝ) (hτ : 0 < p.τ) (hκ : 0 < p.κ)
+    (hok : ∀ b ∈ p.blks, b.StepOkAll) (f α : ℝ) (hf0 : 0 < f) (hf1 : f < 1)
+    (h : StepK.calcStepLength maxValue ls p true f = .ok α) (K : PsdTri.Cone ℝ) (γz γs : Option ℝ)
+    (z s dz ds : Array ℝ) (hb : Blk.psd K γz γs z s dz ds ∈ p.blks) (a : ℝ) (ha0 : 0 ≤ a)
+    (ha : a ≤ α) :
+    PsdStep.PosDef K.n (PsdTri.svecToMat (addStepVec z dz a)) ∧
+      PsdStep.PosDef K.n (PsdTri.svecToMat (addStepVec s ds a)) :=
+  ((StepK.all_step maxValue ls hs0 hs1 hmax p hτ hκ hok f α hf0 hf1 h).2.2.2 a ha0 ha).2.2 _ hb
+
+/-- [R] …and for one **generalised power** block: the stepped slices split as `u ++ w` with
+`|u| = |α|` and lie in `int K*` resp. `int K`, for every `0 ≤ a ≤ α`. -/
+theorem interior_preserved_genpow_block (maxValue : ℝ) (ls : LineSearch ℝ) (hs0 : 0 ≤ ls.step)
+    (hs1 : ls.step ≤ 1) (hmax : 0 < maxValue) (p : Pt ℝ) (hτ : 0 < p.τ) (hκ : 0 < p.κ)
+    (hok : ∀ b ∈ p.blks, b.StepOkAll) (f α : ℝ) (hf0 : 0 < f) (hf1 : f < 1)
+    (h : StepK.calcStepLength maxValue ls p true f = .ok α) (al z s dz ds : Array ℝ)
+    (hb : Blk.genpow al z s dz ds ∈ p.blks) (a : ℝ) (ha0 : 0 ≤ a) (ha : a ≤ α) :
+    ∃ uz wz us ws, (addStepVec z dz a).toList = uz ++ wz ∧ al.toList.length = uz.length ∧
+      (addStepVec s ds a).toList = us ++ ws ∧ al.toList.length = us.length ∧
+      C14.GenPowDualInterior al.toList uz wz ∧ C14.GenPowPrimalInterior al.toList us ws :=
+  (((StepK.all_step maxValue ls hs0 hs1 hmax p hτ hκ hok f α hf0 hf1 h).2.2.2 a ha0 ha).2.2 _ hb).2.2
+
+/-- [R] `C07.interior_preserved` for **all nonsymmetric cones** in the form of round 3's
+`interior_preserved`: from an interior iterate (`Pt.InteriorG`: zero / nonnegative / second-order /
+exponential / power / **generalised power** blocks) and any direction of the right shape, every
+`0 ≤ a ≤ α` leads to an interior iterate again. -/
+theorem interior_preserved_all_nonsym (maxValue : ℝ) (ls : LineSearch ℝ) (hs0 : 0 ≤ ls.step)
+    (hs1 : ls.step ≤ 1) (hmax : 0 < maxValue) (p : Pt ℝ) (hI : p.InteriorG) (hD : p.DirOk)
+    (f α : ℝ) (hf0 : 0 < f) (hf1 : f < 1) (h : StepK.calcStepLength maxValue ls p true f = .ok α) :
+    0 ≤ α ∧ α ≤ f * alphaMax p.τ p.κ p.dτ p.dκ maxValue ∧
+      (p.blks.all Blk.symmetric = false → α ≤ f * f) ∧
+      ∀ a, 0 ≤ a → a ≤ α → (StepK.addStep p a).InteriorG :=
+  StepK.interior_stepG maxValue ls hs0 hs1 hmax p hI hD f α hf0 hf1 h
+
+/-- [R] `C07.step_in_unit` / accepted pass with generalised power blocks: as
+`accepted_step_interior`, for `Pt.InteriorG`. -/
+theorem accepted_step_interior_genpow {c : StepCfg} (hc : c.Ok) {cfg : Loop.Config ℝ}
+    {sc : Loop.Scaling} {p p' : Pt ℝ} (h : AcceptedPass c cfg sc p p') (hI : p.InteriorG) :
+    p'.InteriorG ∧ ∃ q α a, Pt.SamePoint p q ∧ p' = StepK.addStep q a ∧
+      StepK.calcStepLength c.maxValue c.ls q true c.f = .ok α ∧
+      0 < a ∧ cfg.minTerminateStepLength < a ∧ a ≤ α ∧
+      α ≤ c.f * alphaMax q.τ q.κ q.dτ q.dκ c.maxValue ∧ α ≤ c.f ∧ a < 1 :=
+  h.interiorG hc hI
+
+/-- [R] `C07.all_iterates_interior` with generalised power blocks: every iterate of a solve that
+starts from an interior point (`Pt.InteriorG`) is interior, whatever directions (of the right
+shape) the numerics supply. -/
+theorem all_iterates_interior_genpow {c : StepCfg} (hc : c.Ok) {cfg : Loop.Config ℝ} {p0 : Pt ℝ}
+    (h0 : p0.InteriorG) {l : List (Pt ℝ)} (h : Traj c cfg p0 l) : ∀ p ∈ l, p.InteriorG :=
+  h.interiorG hc h0
+
+/-! ### non-vacuity -/
+section examples4
+
+/-- a generalised power block that meets `StepOkAll`: `α = (½, ½)`, `z = (1, 1 | 1)`,
+`s = (1, 1 | 0)`, directions of the right length -/
+example : (Blk.genpow (#[1 / 2, 1 / 2] : Array ℝ) #[1, 1, 1] #[1, 1, 0] #[0, -1, 0] #[1, 0, 0]).StepOkAll := by
+  refine ⟨⟨by intro a ha; simp at ha; subst ha; norm_num, by norm_num, [1, 1], [1], [1, 1], [0], rfl,
+    rfl, rfl, rfl, ⟨by simp, by norm_num⟩, ⟨by simp, by norm_num⟩⟩, rfl, rfl⟩
+
+/-- an interior iterate (`Pt.InteriorG`) with a nonnegative and a generalised power block, and a
+direction of the right shape -/
+example : ∃ p : Pt ℝ, p.InteriorG ∧ p.DirOk :=
+  ⟨{ x := #[0], dx := #[1],
+     blks := [.nn #[1, 2] #[3, 1] #[-1, 0] #[0, -2],
+              .genpow #[1 / 2, 1 / 2] #[1, 1, 1] #[1, 1, 0] #[0, -1, 0] #[1, 0, 0]],
+     τ := 1, κ := 1, dτ := -2, dκ := 1 }, by
+    refine ⟨⟨one_pos, one_pos, ?_⟩, ?_⟩
+    · intro b hb
+      simp only [List.mem_cons, List.not_mem_nil, or_false] at hb
+      rcases hb with rfl | rfl
+      · refine ⟨rfl, ?_, ?_⟩ <;> (intro v hv; simp at hv; rcases hv with rfl | rfl <;> norm_num)
+      · exact ⟨by intro a ha; simp at ha; subst ha; norm_num, by norm_num, [1, 1], [1], [1, 1], [0],
+          rfl, rfl, rfl, rfl, ⟨by simp, by norm_num⟩, ⟨by simp, by norm_num⟩⟩
+    · intro b hb
+      simp only [List.mem_cons, List.not_mem_nil, or_false] at hb
+      rcases hb with rfl | rfl
+      · exact ⟨rfl, rfl⟩
+      · exact ⟨rfl, rfl⟩⟩
+
+/-- a PSD block that meets `StepOkAll`: `n = 1`, `λ = Λisqrt = R = R⁻¹ = 1`, `z = s = (1)`,
+`Δz = Δs = (−2)` with least eigenvalues `−2` (spectral contract) and `W z = λ = W⁻ᵀ s` (NT contract) -/
+example : (Blk.psd (⟨1, #[1], #[1], #[1], #[1], #[]⟩ : PsdTri.Cone ℝ) (some (-2)) (some (-2)) #[1] #[1]
+    #[-2] #[-2]).StepOkAll := by
+  refine ⟨⟨-2, -2, rfl, rfl, by decide, ?_, ?_, ?_⟩, PsdStep.ntOk_example, rfl, rfl⟩
+  · intro i hi
+    have hi' : i < 1 := hi
+    have : i = 0 := by omega
+    subst this; simp
+  · intro d h
+    simp [PsdTri.mulW, PsdTri.mulWx, PsdTri.sizeGuard, PsdIndex.triangularNumber, PsdTri.mulWxInner,
+      PsdTri.matToSvec, PsdTri.packed, PsdTri.gemm, PsdTri.mm, PsdTri.tr, PsdTri.matOf,
+      PsdTri.svecToMat, PsdTri.sumN, PsdTri.isZero, bind, Except.bind, pure, Except.pure] at h
+    subst h
+    refine ⟨?_, fun _ => 1, ?_, ?_⟩
+    · intro v
+      simp [PsdStep.nrm2, PsdStep.qform, PsdStep.scaledDir, PsdTri.svecToMat, PsdIndex.triangularNumber]
+      linarith
+    · simp [PsdStep.nrm2]
+    · simp [PsdStep.nrm2, PsdStep.qform, PsdStep.scaledDir, PsdTri.svecToMat, PsdIndex.triangularNumber]
+  · intro d h
+    simp [PsdTri.mulWinv, PsdTri.mulWx, PsdTri.sizeGuard, PsdIndex.triangularNumber, PsdTri.mulWxInner,
+      PsdTri.matToSvec, PsdTri.packed, PsdTri.gemm, PsdTri.mm, PsdTri.tr, PsdTri.matOf,
+      PsdTri.svecToMat, PsdTri.sumN, PsdTri.isZero, bind, Except.bind, pure, Except.pure] at h
+    subst h
+    refine ⟨?_, fun _ => 1, ?_, ?_⟩
+    · intro v
+      simp [PsdStep.nrm2, PsdStep.qform, PsdStep.scaledDir, PsdTri.svecToMat, PsdIndex.triangularNumber]
+      linarith
+    · simp [PsdStep.nrm2]
+    · simp [PsdStep.nrm2, PsdStep.qform, PsdStep.scaledDir, PsdTri.svecToMat, PsdIndex.triangularNumber]
+
+end examples4
+
 end Clarabel.C07
